@@ -36,8 +36,8 @@ type Options struct {
 	// compared), and `x in (lit, lit, ...)` is equal to `x in ::listarg` (the normalizer
 	// replaces an all-literal IN tuple by one list argument). Used by C16 to compare the
 	// redacted statement's shape with the original. GroupConcatExpr.Separator (the text
-	// " separator '<string>'", a literal the AST keeps as printed text) is not compared
-	// either.
+	// " separator '<string>'", a literal the AST keeps as printed text) and ShowFilter.Like
+	// (the pattern of SHOW TABLES LIKE, kept as text too) are not compared either.
 	WildLiterals bool
 	// OrderByConstant: Order.Direction is ignored when Order.Expr is NULL or rand():
 	// Order.Format deliberately prints no direction for these (ordering by a constant / by
@@ -107,6 +107,7 @@ var (
 	tCmp         = reflect.TypeOf(sqlparser.ComparisonExpr{})
 	tBytes       = reflect.TypeOf([]byte(nil))
 	tGroupConcat = reflect.TypeOf(sqlparser.GroupConcatExpr{})
+	tShowFilter  = reflect.TypeOf(sqlparser.ShowFilter{})
 )
 
 func skipField(t reflect.Type, name string) bool {
@@ -200,6 +201,13 @@ func (d *differ) walk(a, b reflect.Value, path string) {
 			if t == tGroupConcat && name == "Separator" && d.o.WildLiterals {
 				if (open(a.Field(i)).String() == "") != (open(b.Field(i)).String() == "") {
 					d.fail(path+"."+name, "separator present on one side only")
+				}
+				continue
+			}
+			if t == tShowFilter && name == "Like" && d.o.WildLiterals {
+				// the LIKE pattern of SHOW TABLES is a literal the AST keeps as text
+				if (open(a.Field(i)).String() == "") != (open(b.Field(i)).String() == "") {
+					d.fail(path+"."+name, "like pattern present on one side only")
 				}
 				continue
 			}
